@@ -65,34 +65,34 @@ def step (st : Store) (toks : List String) : Store × String :=
   | ["reset", "legacy"] => ({ cfgMode := false }, "ok")
   | ["ent", dst, srcs] =>
     match decB dst, (decList srcs).mapM parseSrc with
-    | some dst, some srcs => res (applyEntry st ⟨dst, srcs⟩)
+    | some dst, some srcs => res (applyOpE st (.ent ⟨dst, srcs⟩))
     | _, _ => (st, "bad-op")
   | ["entdel", dst] =>
     match decB dst with
-    | some dst => (deleteEntry st dst, "ok")
+    | some dst => res (applyOpE st (.entdel dst))
     | none => (st, "bad-op")
   | ["up", dst, src, act, perms] =>
     match decB dst, decB src, decAct act, perms.toNat? with
     | some dst, some src, some act, some perms =>
-      res (mutUpsert st dst { peer := [], name := src, act := act, perms := perms, prec := 0 })
+      res (applyOpE st (.up dst { peer := [], name := src, act := act, perms := perms, prec := 0 }))
     | _, _, _, _ => (st, "bad-op")
   | ["del", dst, src] =>
     match decB dst, decB src with
-    | some dst, some src => res (mutDelete st dst src)
+    | some dst, some src => res (applyOpE st (.del dst src))
     | _, _ => (st, "bad-op")
   | ["lcreate", dst, src, act, id] =>
     match decB dst, decB src, decAct act, decB id with
     | some dst, some src, some act, some id =>
-      res (mutLegacyCreate st dst { peer := [], name := src, act := act, perms := 0, prec := 0, lid := id })
+      res (applyOpE st (.lcreate dst { peer := [], name := src, act := act, perms := 0, prec := 0, lid := id }))
     | _, _, _, _ => (st, "bad-op")
   | ["lset", id, src, dst, act] =>
     match decB id, decB src, decB dst, decAct act with
     | some id, some src, some dst, some act =>
-      res (legacySet st id { peer := [], src := src, dst := dst, act := act, perms := 0, prec := 0 })
+      res (applyOpE st (.lset id { peer := [], src := src, dst := dst, act := act, perms := 0, prec := 0 }))
     | _, _, _, _ => (st, "bad-op")
   | ["ldel", id] =>
     match decB id with
-    | some id => res (legacyDelete st id)
+    | some id => res (applyOpE st (.ldel id))
     | none => (st, "bad-op")
   | ["match", side, name] =>
     match decSide side, decB name with
